@@ -22,11 +22,12 @@ CONSTANTS
   M_SubjectPerException = TRUE
   M_FirstRuleWins = TRUE
   M_SourceFallsBackToInputId = TRUE
+  M_PrecheckOnlyForKnownStream = TRUE
   SKeyMaxLen = 4
   MSyms = {1, 2}
   MDataMax = 3
   MValMax = 2
   MCi = {FALSE}
   MPairLens = {1, 2}
-INVARIANTS TypeOK RefusedOnlyIf CutIsPrefix WithinLimitUntouched MatchAgrees DataUnchanged CriAdmitted CriVerdictIgnoresAntispam ExceptionListExempts RuleListGoverns SourceKeyAgrees NoSharedCounter DisabledNeverDrops ExceptionNeverDrops SpamOnlyIfBanned BanOnlyAfterThreshold UnbanWithin VerdictDetermined
+INVARIANTS TypeOK RefusedOnlyIf CutIsPrefix WithinLimitUntouched MatchAgrees DataUnchanged CriAdmitted CriVerdictIgnoresAntispam ExceptionListExempts RuleListGoverns SourceKeyAgrees NoSharedCounter RefusedOnlyForStatedReasons DisabledNeverDrops ExceptionNeverDrops SpamOnlyIfBanned BanOnlyAfterThreshold UnbanWithin VerdictDetermined
 CHECK_DEADLOCK FALSE
